@@ -182,7 +182,11 @@ func (ex *Exec) runTo(s *State, g int, depth int, stop *ssa.BasicBlock) []*State
 			if req == nil {
 				continue
 			}
+			st.Forked = true
 			if !req.isIf {
+				for _, c := range req.children {
+					c.Forked = true
+				}
 				ex.Stat.Splits++
 				work = append(work, req.children...)
 				break
@@ -242,7 +246,27 @@ func (ex *Exec) runTo(s *State, g int, depth int, stop *ssa.BasicBlock) []*State
 			break
 		}
 	}
-	return ex.mergeAll(done)
+	out := ex.mergeAll(done)
+	// lazy pruning: a join that leaves several live states (values that
+	// cannot be merged) is the point where infeasible ones are dropped
+	live := 0
+	for _, o := range out {
+		if !o.Dead {
+			live++
+		}
+	}
+	if live > 1 {
+		var kept []*State
+		for _, o := range out {
+			if o.Dead || o.Prune || ex.feasible(o, ex.st.True) {
+				kept = append(kept, o)
+			} else {
+				ex.Stat.Pruned++
+			}
+		}
+		out = kept
+	}
+	return out
 }
 
 func (ex *Exec) unwindExceeded(st *State) bool {
@@ -904,7 +928,15 @@ func (ex *Exec) binop(st *State, x *ssa.BinOp, a, b Value) Value {
 			if ex.mayPanic(st, x, "integer divide by zero", bad) {
 				return s.BV(0, av.W)
 			}
-			if st.AbstractArith && !bv.IsConst() {
+			abstract := st.AbstractArith && !bv.IsConst()
+			if st.AbstractArith && bv.IsConst() && x.Op == token.REM && !signed {
+				// remainder by a constant: exact (compare-and-subtract) when the
+				// dividend is known to be small, abstract when it is unbounded
+				if ub, ok := s.UpperBound(av); !ok || ub >= 3*bv.Val {
+					abstract = true
+				}
+			}
+			if abstract {
 				name := "absdiv"
 				if x.Op == token.REM {
 					name = "absrem"
